@@ -518,6 +518,10 @@ func Tpl(tag string) corev1.PodTemplateSpec {
 		t.Spec.Affinity = &corev1.Affinity{NodeAffinity: &corev1.NodeAffinity{PreferredDuringSchedulingIgnoredDuringExecution: []corev1.PreferredSchedulingTerm{
 			{Weight: 1, Preference: corev1.NodeSelectorTerm{MatchExpressions: []corev1.NodeSelectorRequirement{{Key: "zone", Operator: corev1.NodeSelectorOpIn, Values: []string{"z1"}}}}}}}}
 	}
+	// "X+metans" : template X whose own metadata carries a namespace and a generateName (legal, ignored for the pods)
+	if strings.Contains(tag, "+metans") {
+		t.Namespace, t.GenerateName = "elsewhere", "tpl-"
+	}
 	// "X+side" : template X with a second container "side"
 	if strings.Contains(tag, "+side") {
 		base := tag
